@@ -177,12 +177,14 @@ def lean_sources():
     return out
 
 
-def audit_theorems(module: str, theorems, tag: str):
-    """`#print axioms` for every theorem. Returns dict name -> (ok, axioms|error)."""
+def audit_theorems(module, theorems, tag: str):
+    """`#print axioms` for every theorem. Returns dict name -> (ok, axioms|error).
+    `module`: one module name or a list of module names to import."""
     audit_dir = LEAN_DIR / ".lake" / "audit"
     audit_dir.mkdir(parents=True, exist_ok=True)
     f = audit_dir / f"Audit_{tag}.lean"
-    lines = [f"import {module}"] + [f"#print axioms {t}" for t in theorems]
+    modules = [module] if isinstance(module, str) else list(module)
+    lines = [f"import {m}" for m in modules] + [f"#print axioms {t}" for t in theorems]
     f.write_text("\n".join(lines) + "\n")
     rc, out = run_cmd(["lake", "env", "lean", str(f)], cwd=str(LEAN_DIR), timeout=1800)
     res = {}
